@@ -688,6 +688,7 @@ def run(chk):
     _freshbudget_rule(chk, prog, cg)
     _protowalk_rule(chk, prog)
     _tailflag_rule(chk, prog)
+    _tailcond_rule(chk, prog)
     _depthbalance_rule(chk, prog)
     _markspill_rule(chk, prog)
     _hookstep_rule(chk, prog)
@@ -1132,3 +1133,61 @@ def _unstep_rule(chk, prog):
                                       "`%s` is reached with `%s` stepped back to its value on entry: this nesting costs no budget, so "
                                       "input that nests only through this path recurses until the native stack overflows" % (x.text()[:50], key))
     chk.floor(rule, 1, n)
+
+
+def _tailcond_rule(chk, prog):
+    """A call in tail position is compiled to JOP_TAILCALL so that loops written as tail recursion run in constant
+    stack.  The one deliberate exception is a call that is itself a top-level form (its own scope is the JANET_SCOPE_TOP
+    scope), kept as call + return for the sake of stack traces.  Scope parent links are not cut at function
+    boundaries, so any wider notion of "top level" (some enclosing scope is the top scope) is true everywhere and
+    turns every tail call of that kind into a growing stack."""
+    rule = "C19-TAILCOND"
+    chk.rule(rule, "every emitter of JOP_TAILCALL for a call in tail position decides by JANET_FOPTS_TAIL and, at most, the JANET_SCOPE_TOP flag of the current scope itself")
+    from jv.flow import _atoms
+    n = 0
+    byname = {}
+    for f in prog.all_funcs():
+        byname.setdefault(f.name, f)
+    for fn in prog.all_funcs():
+        if fn.tu.name not in ("compile.c", "cfuns.c"):
+            continue
+        for x in fn.nodes:
+            if x.k != "if" or not any(c.k == "call" and (c.callee or "").startswith("janetc_emit") and
+                                      any(y.k == "ref" and y.name == "JOP_TAILCALL" for a in c.args for y in a.walk()) for c in x.kids[1].walk()):
+                continue
+            if not any("JANET_FOPTS_TAIL" in y.macro_names() or (y.k == "ref" and y.name == "JANET_FOPTS_TAIL") for y in x.kids[0].walk()):
+                continue
+            n += 1
+            chk.instance(rule)
+            chk.analysed(fn)
+            bad = None
+            for alt in _atoms(x.kids[0], True):
+                for (a, t) in alt:
+                    names = set()
+                    for y in a.walk():
+                        names.update(m.rstrip("@") for m in y.macro_names())
+                        if y.k == "ref":
+                            names.add(y.name)
+                    if "JANET_FOPTS_TAIL" in names:
+                        continue
+                    calls = [c for c in a.walk() if c.k == "call"]
+                    direct = "JANET_SCOPE_TOP" in names and not calls and any(
+                        y.k == "mem" and y.field == "flags" and y.kids and strip_casts(y.kids[0]).k == "mem" and strip_casts(y.kids[0]).field == "scope"
+                        for y in a.walk())
+                    helper_ok = False
+                    if calls and len(calls) == 1 and calls[0].callee in byname:
+                        h = byname[calls[0].callee]
+                        helper_ok = not any(z.k in ("for", "while", "do") for z in h.nodes) and \
+                            not any(z.k == "mem" and z.field == "parent" for z in h.nodes) and \
+                            any("JANET_SCOPE_TOP" in z.macro_names() or (z.k == "ref" and z.name == "JANET_SCOPE_TOP") for z in h.nodes)
+                    if not (direct or helper_ok):
+                        bad = a
+            if bad is None:
+                chk.ok(rule, "%s: tail call decided by `%s`" % (fn.name, x.kids[0].text()[:60].replace("\n", " ")))
+            else:
+                chk.violation(rule, fn.tu.name, fn.name, "cond:" + bad.text()[:30].replace(" ", ""), x.loc,
+                              "%s emits JOP_TAILCALL only when `%s` also holds, which is more than the current scope being the top-level "
+                              "scope: if that condition is true inside functions too (a walk up scope->parent always reaches the top scope), "
+                              "calls of this kind in tail position are compiled as call + return and tail-recursive loops through them "
+                              "overflow the stack" % (fn.name, bad.text()[:50]))
+    chk.floor(rule, 2, n)
